@@ -1,0 +1,59 @@
+//go:build verif
+
+package storage
+
+import (
+	"sync"
+
+	"github.com/MixinNetwork/mixin/config"
+	"github.com/dgraph-io/badger/v4"
+	"github.com/dgraph-io/badger/v4/options"
+)
+
+// VerifScan returns every key/value of the snapshots database under prefix, in key order.
+func (s *BadgerStore) VerifScan(prefix string) (keys, vals [][]byte) {
+	txn := s.snapshotsDB.NewTransaction(false)
+	defer txn.Discard()
+	opts := badger.DefaultIteratorOptions
+	opts.Prefix = []byte(prefix)
+	it := txn.NewIterator(opts)
+	defer it.Close()
+	for it.Seek([]byte(prefix)); it.Valid(); it.Next() {
+		v, err := it.Item().ValueCopy(nil)
+		if err != nil {
+			panic(err)
+		}
+		keys = append(keys, it.Item().KeyCopy(nil))
+		vals = append(vals, v)
+	}
+	return keys, vals
+}
+
+// VerifNewBadgerStore is NewBadgerStore with a smaller memtable (opening the production
+// size costs seconds per open in the verification sandbox); every other option is the one
+// openDB sets.
+func VerifNewBadgerStore(custom *config.Custom, dir string, memTableSize int64) (*BadgerStore, error) {
+	open := func(dir string, sync bool) (*badger.DB, error) {
+		opts := badger.DefaultOptions(dir)
+		opts = opts.WithSyncWrites(sync)
+		opts = opts.WithCompression(options.None)
+		opts = opts.WithBlockCacheSize(0)
+		opts = opts.WithIndexCacheSize(0)
+		opts = opts.WithMetricsEnabled(false)
+		opts = opts.WithLoggingLevel(badger.WARNING)
+		opts = opts.WithBaseLevelSize(16 << 20)
+		opts = opts.WithLevelSizeMultiplier(16)
+		opts = opts.WithMaxLevels(7)
+		opts = opts.WithMemTableSize(memTableSize)
+		return badger.Open(opts)
+	}
+	snapshotsDB, err := open(dir+"/snapshots", true)
+	if err != nil {
+		return nil, err
+	}
+	cacheDB, err := open(dir+"/cache", false)
+	if err != nil {
+		return nil, err
+	}
+	return &BadgerStore{custom: custom, snapshotsDB: snapshotsDB, cacheDB: cacheDB, mutex: new(sync.RWMutex)}, nil
+}
